@@ -268,12 +268,13 @@ props["C01"] = {
     "assumptions": ["programs outside ZCore (polymorphism, existentials, packages, blocks) are covered by the execution correspondence and the stuck-state monitor only"],
 }
 props["C01"]["manifest"] = {
-    "text": "The interpreter (eval.rs) is mirrored as a Lean CK machine whose undefined states are explicit, and validated against the real Runtime on every executable repository program and on generated programs (same linked program, same outcome and output). Type safety of accepted programs (checker sound, an accepted program never reaches a stuck state at any step count, an OS program that halts does so by exit or trap) is proved for ZCore (typed CBPV core: data, codata, products, thunks, functions, fix, integer and string primitives) over that machine; the real checker is tied to the ZCore checker by verdict classes on generated programs and typed mutants, and every accepted program runs under a stuck-state monitor.",
+    "text": "The interpreter (eval.rs) is mirrored as a Lean CK machine whose undefined states are explicit, and validated against the real Runtime on every executable repository program and on generated programs (same linked program, same outcome and output). Type safety of accepted programs (checker sound, an accepted program never reaches a stuck state at any step count, an OS program that halts does so by exit or trap) is proved for ZCore (typed CBPV core: data, codata, products, thunks, functions, fix, integer and string primitives) over that machine; the real checker is tied to the ZCore checker by verdict classes on generated programs and typed mutants, and every accepted program runs under a stuck-state monitor. The same monitor runs every shape-preserving mutant of the executable repository programs (one name, constructor, destructor or literal replaced by another of the same lexical shape, or a literal changing its kind) that the checker still accepts, which reaches the rules for polymorphism, parametrised data, records and packages that ZCore lacks.",
     "note": "Trusted: Lean kernel and the three standard axioms; the harness/driver. The real 8,200-line checker is compared with the model checker on the generated fragment, not proved sound; features outside ZCore are covered by execution correspondence and the monitor only.",
     "technique": "Lean CK-machine mirror + progress/preservation-style safety theorem on a typed core + three-way differential correspondence (real interpreter, Lean machine on the real linked program, Lean typed model) + typed mutants",
 }
 props["C02"] = {
     "model_oracle_prefixes": ["zc run "],
+    "harness_args": ["--skip-corpus-mutants"],
     "harness": "c01", "level": "proof", "nontrivial": r"^(ck|zc) run ",
     "timeout": {"quick": 1500, "thorough": 7200},
     "rule": PROGRAM_RULE,
@@ -288,6 +289,7 @@ props["C02"]["manifest"] = {
 }
 props["C03"] = {
     "harness": "c01", "level": "proof", "nontrivial": r"^zc run ",
+    "harness_args": ["--skip-corpus-mutants"],
     "timeout": {"quick": 1500, "thorough": 7200},
     "rule": PROGRAM_RULE,
     "explanation": "The declared typing rules of the core language are an inductive relation (ZV.ZCore.HasTyC); the statements that the model checker is sound and complete for them, that types are unique and that whatever it rejects has no derivation are kept in ZV/Props/C03Statements.lean and proved in ZV/Props/C03.lean when listed under `theorems`. The model checker is tied to the real checker by comparing accept / reject-with-class on every generated well-typed program and every typed mutant.",
